@@ -39,6 +39,7 @@ func main() {
 	verbose := fs.Bool("v", false, "print every obligation")
 	repo := fs.String("repo", "/repo", "repository")
 	verif := fs.String("verif", "/verif", "verif dir")
+	overlay := fs.String("overlay", "", "comma-separated /repo/file.go=/path/replacement.go (self-tests only)")
 	fs.Parse(os.Args[3:])
 	seed, _ := strconv.Atoi(os.Getenv("VERIF_SEED"))
 
@@ -63,7 +64,20 @@ func main() {
 		os.Exit(2)
 	}
 	t0 := time.Now()
-	lp, err := load.Load(load.Options{Repo: *repo})
+	var ov map[string][]byte
+	if *overlay != "" {
+		ov = map[string][]byte{}
+		for _, kv := range strings.Split(*overlay, ",") {
+			p := strings.SplitN(kv, "=", 2)
+			b, err := os.ReadFile(p[1])
+			if err != nil {
+				fmt.Fprintln(os.Stderr, "BROKEN: overlay:", err)
+				os.Exit(2)
+			}
+			ov[p[0]] = b
+		}
+	}
+	lp, err := load.Load(load.Options{Repo: *repo, Overlay: ov})
 	if err != nil {
 		fmt.Fprintln(os.Stderr, "BROKEN: load:", err)
 		os.Exit(2)
